@@ -4,6 +4,7 @@
 package core
 
 import (
+	"errors"
 	"fmt"
 	"net"
 	"runtime"
@@ -77,6 +78,27 @@ func VerifReset() {
 	timeoutTree = llrb.New()
 	msgId, fragId = 0, 0
 	EngineGlobal = nil
+}
+
+// VerifBootReal runs the REAL serve() (seed pools from opts.RedisServers, OnBoot, engine.start() incl. preconnect); the go
+// statements and the blocking deferred stop of core/engine.go are neutralised by the rewriter (vsys.GoCaptured / Skipped).
+// No topology is injected: the first one arrives through the real probe path (ticker -> CLUSTER NODES -> refresh goroutine).
+func VerifBootReal(h EventHandler, lfd int, opts *Options) (*VerifWorld, error) {
+	VerifReset()
+	allEngines.Delete("tcp://verif")
+	ln := &listener{fd: lfd, addr: &net.TCPAddr{IP: net.IPv4(127, 0, 0, 1), Port: 9736}}
+	if err := serve(h, ln, opts, "tcp://verif"); err != nil {
+		return nil, err
+	}
+	v, ok := allEngines.Load("tcp://verif")
+	if !ok {
+		return nil, errors.New("serve() returned without registering an engine")
+	}
+	eng := v.(*engine)
+	if eng.el == nil {
+		return nil, errors.New("serve() returned without an event loop")
+	}
+	return &VerifWorld{el: eng.el, eng: eng}, nil
 }
 
 // VerifBoot mirrors serve() + engine.start() without statsLoop / loopClusterNodes / preconnect,
